@@ -64,15 +64,38 @@ fn string_to_bits(s: &str) -> Vec<bool> {
 
 // --------------------------------------------------------------------------------- RankSelect
 
-fn check_rs(plain: &[bool], k: usize, cc: &mut CaseCtx) {
+/// `build` = how the BitVec is constructed (the logical content is the same):
+/// 0: all-false vector, ones set; 1: all-true vector (storage padding bits set), zeros cleared;
+/// 2: all-true vector of n+5 bits truncated to n (set bits behind the logical end), zeros cleared
+fn check_rs(plain: &[bool], k: usize, build: u8, cc: &mut CaseCtx) {
     let n = plain.len();
     debug_assert!(n >= 1 && k >= 1);
-    let mut bits: BitVec<u8> = BitVec::new_fill(false, n as u64);
-    for (i, &b) in plain.iter().enumerate() {
-        if b {
-            bits.set_bit(i as u64, true);
+    let bits: BitVec<u8> = match build {
+        0 => {
+            let mut b: BitVec<u8> = BitVec::new_fill(false, n as u64);
+            for (i, &x) in plain.iter().enumerate() {
+                if x {
+                    b.set_bit(i as u64, true);
+                }
+            }
+            b
         }
-    }
+        _ => {
+            let mut b: BitVec<u8> = if build == 1 {
+                BitVec::new_fill(true, n as u64)
+            } else {
+                let mut t: BitVec<u8> = BitVec::new_fill(true, n as u64 + 5);
+                t.truncate(n as u64);
+                t
+            };
+            for (i, &x) in plain.iter().enumerate() {
+                if !x {
+                    b.set_bit(i as u64, false);
+                }
+            }
+            b
+        }
+    };
     // the vector spans more than one superblock (rank adds a stored prefix count, select's binary
     // search has to choose), or the last byte is partial (select_0 must ignore the padding zeros)
     cc.set_nontrivial(n > 32 * k || n % 8 != 0);
@@ -197,8 +220,18 @@ fn check_rs(plain: &[bool], k: usize, cc: &mut CaseCtx) {
 fn rs_case(ctx: &mut Ctx, plain: &[bool], k: usize) {
     ctx.case(
         || json!({"kind": "rankselect", "bits": bits_to_string(plain), "k": k}),
-        |cc| check_rs(plain, k, cc),
+        |cc| check_rs(plain, k, 0, cc),
     );
+    // other ways of constructing the same vector leave set bits in the storage padding
+    let n = plain.len();
+    if n % 8 != 0 && (n <= 13 || (n > 60 && n <= 80 && plain[n - 1])) {
+        for build in [1u8, 2] {
+            ctx.case(
+                || json!({"kind": "rankselect", "bits": bits_to_string(plain), "k": k, "build": build}),
+                |cc| check_rs(plain, k, build, cc),
+            );
+        }
+    }
 }
 
 fn small_max(tier: Tier) -> usize {
@@ -478,7 +511,7 @@ impl Prop for C17Prop {
         "exploration"
     }
     fn rule(&self) -> &'static str {
-        "One case = one (bit vector, k) pair: RankSelect::new on it, then get/rank_1/rank_0 for every i in 0..=n+1 and u64::MAX and select_1/select_0 for every j in 0..=n+1 and u64::MAX against naive counting, plus rank(select(j)) = j on the subject's own answers. Vectors: every vector of length 1..=L; every 9-byte vector over a set of byte patterns with the last byte cut to t bits (65..72 bits); every sequence of up to C superblock-sized chunks of six shapes (zeros, ones, only-first, only-last, all-but-first, all-but-last) followed by one of 12 tails, for each k (small k with up to C chunks; k in {8,9,16,33,64,100} with up to 2/3 chunks, where a superblock holds more than 255 one-bits). Wavelet matrix: one case = one text over {A,C,G,T,N,$} (every text of length 1..=W, and for every primitive one its periodic extension to at least E symbols), every symbol x every position. All tuples are points of a product space, enumerated once. Non-trivial: the vector spans more than one superblock (n > 32k) or its last byte is partial; wavelet: the text has >= 3 distinct symbols, or >= 2 and more than 32 symbols."
+        "One case = one (bit vector, k) pair: RankSelect::new on it, then get/rank_1/rank_0 for every i in 0..=n+1 and u64::MAX and select_1/select_0 for every j in 0..=n+1 and u64::MAX against naive counting, plus rank(select(j)) = j on the subject's own answers. Vectors: every vector of length 1..=L; every 9-byte vector over a set of byte patterns with the last byte cut to t bits (65..72 bits); every sequence of up to C superblock-sized chunks of six shapes (zeros, ones, only-first, only-last, all-but-first, all-but-last) followed by one of 12 tails, for each k (small k with up to C chunks; k in {8,9,16,33,64,100} with up to 2/3 chunks, where a superblock holds more than 255 one-bits). Vectors whose length is not a multiple of 8 (short ones and some 65-72-bit ones) are additionally built from an all-true vector and from a truncated longer vector, which leaves set bits in the storage padding. Wavelet matrix: one case = one text over {A,C,G,T,N,$} (every text of length 1..=W, and for every primitive one its periodic extension to at least E symbols), every symbol x every position. All tuples are points of a product space, enumerated once. Non-trivial: the vector spans more than one superblock (n > 32k) or its last byte is partial; wavelet: the text has >= 3 distinct symbols, or >= 2 and more than 32 symbols."
     }
     fn assumptions(&self) -> Vec<&'static str> {
         vec![
@@ -534,7 +567,8 @@ impl Prop for C17Prop {
         } else {
             let plain = string_to_bits(case["bits"].as_str().unwrap_or(""));
             let k = case["k"].as_u64().unwrap_or(1) as usize;
-            ctx.case(|| case.clone(), |cc| check_rs(&plain, k, cc));
+            let build = case["build"].as_u64().unwrap_or(0) as u8;
+            ctx.case(|| case.clone(), |cc| check_rs(&plain, k, build, cc));
         }
     }
 }
